@@ -276,10 +276,14 @@ func Generate(r *rng.R, g GenConfig) *History {
 				h.Steps = append(h.Steps, Step{Op: "A", C: c})
 			}
 		case 11:
-			if r.Chance(1, 2) {
+			switch r.Pick(2, 2, 2) {
+			case 0:
 				h.Steps = append(h.Steps, Step{Op: "K", C: c})
-			} else {
+			case 1:
 				h.Steps = append(h.Steps, Step{Op: "Kf", C: c})
+			default:
+				// the sync of a Kq step has to push something: only a push starts a snapshot
+				h.Steps = append(h.Steps, Step{Op: "Kq", C: c, Edits: []Edit{genEdit(r, g.Flavor)}})
 			}
 		case 9:
 			if g.Faults && r.Chance(1, 2) {
